@@ -53,6 +53,8 @@ def conditions():
     for a in (1, 'a', None):
         conds.append(['kw', {'x': ['list', [a]]}])
     conds.append(['kw', {'x': ['list', []]}])
+    conds.append(['kw', {'x': ['tuple', [1, 'a']]}])
+    conds.append(['kw', {'x': ['tuple', [None, 2.5]]}])
     for p in REGEX:
         conds.append(['kw', {'x': ['re', p]}])
     # conjunctions with a second column
@@ -90,6 +92,8 @@ def _mk_value(c):
         return np.nan
     if t == 'list':
         return list(c[1])
+    if t == 'tuple':
+        return tuple(c[1])
     if t == 're':
         return re.compile(c[1])
     raise ValueError(c)
@@ -104,7 +108,7 @@ def _pred_one(c, cell):
         return (not is_nan(cell)) and cell is not None and _pyeq(cell, v)
     if t in ('nan', 'nan_np'):
         return is_nan(cell)
-    if t == 'list':
+    if t in ('list', 'tuple'):
         return any((cell is None and u is None) or (cell is not None and u is not None and not is_nan(cell) and _pyeq(cell, u))
                    for u in c[1])
     if t == 're':
